@@ -5,7 +5,6 @@ seeds=${1:-"1 2 3"}; tier=${2:-quick}; shift 2 2>/dev/null
 checks=${@:-C01 C02 C03 C04 C05 C06 C07 C08 C09 C10 C11 C12 C13 C14 C15 C16 C17 C18 C19 C20}
 cd /verif
 for s in $seeds; do for c in $checks; do
-  out=$(VERIF_SEED=$s VERIF_EVIDENCE_DIR=/tmp/sweep_ev VERIF_REPLAY_DIR=/tmp/sweep_ev timeout 3000 ./check $c $tier 2>&1); rc=$?
+  out=$(VERIF_SEED=$s VERIF_EVIDENCE_DIR=/tmp/sweep_ev_$s VERIF_REPLAY_DIR=/tmp/sweep_ev_$s timeout 3000 ./check $c $tier 2>&1); rc=$?
   if [ $rc -ne 0 ]; then echo "seed=$s $c rc=$rc"; echo "$out" | grep -E "violation|MACHINERY|Error" | head -3 | cut -c1-300; else echo "seed=$s $c ok $(echo "$out" | tail -1 | grep -o 'wall=.*')"; fi
-done; done
-rm -rf /tmp/sweep_ev
+done; rm -rf /tmp/sweep_ev_$s; done
